@@ -31,8 +31,11 @@ PRED_TYPES = ("prediction_set", "model_run")
 # ---------------------------------------------------------------------------
 # strategies for leaves
 
-_text = st.text(max_size=6)
-_label = st.one_of(st.sampled_from(["species", "call", "quality", "a", "b"]), st.text(min_size=1, max_size=5))
+# text that looks like something else once it is JSON (numbers, booleans, null, containers, escapes), line breaks, a byte-order mark
+_LOOKALIKE = ["null", "true", "false", "1", "1.0", "-0", "1e5", "NaN", "Infinity", "[]", "{}", '"q"', "a\nb", "a\r\nb", "\ufeffbom", "0123", "None",
+              "2020-01-01", "2020-01-01T00:00:00", "a:b", "\\u0041", "\\", "'", " ", "\t", "\x7f", "\u2028", "\U0001f426"]
+_text = st.one_of(st.text(max_size=6), st.text(max_size=6), st.text(max_size=6), st.sampled_from(_LOOKALIKE))
+_label = st.one_of(st.sampled_from(["species", "call", "quality", "a", "b"]), st.text(min_size=1, max_size=5), st.sampled_from([x for x in _LOOKALIKE if x.strip()]))
 _opt_text = st.one_of(st.none(), _text)
 _score = st.one_of(st.sampled_from([0.0, 1.0, 0.5, 0.25]), st.floats(0.0, 1.0, allow_nan=False))
 _finite = st.one_of(st.sampled_from([0.0, 1.0, -1.5, 1e-9, 123456.789]), st.floats(allow_nan=False, allow_infinity=False, width=64))
@@ -79,7 +82,7 @@ def _uuid(draw):
 @st.composite
 def _dt(draw):
     d = datetime.datetime(2000, 1, 1) + datetime.timedelta(
-        days=draw(st.integers(0, 12000)), seconds=draw(st.integers(0, 86399)), microseconds=draw(st.sampled_from([0, 0, 1, 500000, 999999]))
+        days=draw(st.one_of(st.integers(0, 12000), st.integers(0, 12000), st.integers(-18000, -1), st.sampled_from([59, 1520, 8825, -10900]))), seconds=draw(st.integers(0, 86399)), microseconds=draw(st.sampled_from([0, 0, 1, 500000, 999999]))
     )
     tz = draw(st.sampled_from(["", "", "+00:00", "+00:00", "+02:00", "-05:30"]))
     return d.isoformat() + tz
